@@ -389,6 +389,16 @@ theorem C05_enum_bool_translated_mismatch :
     enumRepr true .newType .bool = .rust .U8 ∧
     variantLiteral false (extractVal .bool 1) = .bool true := by decide
 
+/-- `wchar_t` (a signed int for the C compiler) is read as unsigned: the enumerator −1 becomes
+4294967295, and `const wchar_t w = -1` prints the u64 bits into a `u32` -/
+theorem C05_wchar_unsigned_mismatch :
+    wcharExtract (-1) = .unsigned 4294967295 ∧
+    readInt (intLiteral false (wrap64 (-1))) = some 18446744073709551615 ∧
+    ¬ ((18446744073709551615 : Int) ≤ MKind.hi .U32) ∧ wcharRegion (-1) = true := by decide
+
+/-- `const long double` gets the integer type `u128` with a floating literal -/
+theorem C05_long_double_emitted_as_u128 : rustIntName .ldouble = "u128" := by decide
+
 end BindgenModel.ConstEmit
 
 namespace BindgenModel.CExpr
